@@ -158,8 +158,9 @@ CHECKS["C10"] = dict(
          "closures, globals, parameters and returns carry them through heap and scopes). Flow-chain programs - source kind x up to two connecting "
          "constructs x sink placement, with decoys - go through the full lian pipeline; each pair observed at the designated sink argument must be "
          "reported in taint_data_flow.json.",
-    note="Single-file deterministic python programs (one execution each), explicit flows only, call and parameter sources, call sinks (direct and in a "
-         "callee); exhaustive to chain length 2 in the thorough tier; closures and loop-carried values are listed known findings.",
+    note="Single-file deterministic python and javascript programs (one execution each), explicit flows only, call and parameter sources, call sinks (direct and in a "
+         "callee), 26 connectors incl. containers mutated by library methods, packed parameters, re-assignment from a source, program-defined source/sink functions, a split rule set; "
+         "exhaustive to chain length 2 in the thorough tier; closures, loop-carried values and a variable re-assigned from an external source are listed known findings.",
     design_ref="5/C10", engine="GIRMachine")
 
 CHECKS["C13"] = dict(
@@ -185,8 +186,8 @@ CHECKS["C07"] = dict(
          "with 3 and 5 entry points converging on one deep call site. The machine executes all units of the project in one case (branches on choice() are "
          "separate behaviours); every call triple must be an element of a path of call_paths_p3 that starts at the entry in use, and a frame for the callee must "
          "have been pushed under that call site while that entry was analysed.",
-    note="Python frontend; the semantics is the one C01 validates against CPython, extended here with inheritance lookup, aliased from-imports and a start method by id; "
-         "functions returned by value are a listed known finding (C07-F1).",
+    note="Python projects (23 kinds x 8 contexts, multi-file) and javascript programs (14 kinds x 5 contexts); the semantics is the one C01 validates against CPython, extended here "
+         "with inheritance lookup, aliased from-imports, constructors of other languages and a start method by id; functions returned by value are a listed known finding (C07-F1).",
     design_ref="5/C07", engine="GIRMachine")
 
 CHECKS["C08"] = dict(
@@ -199,7 +200,7 @@ CHECKS["C08"] = dict(
          "backslashes, operator characters, digit strings) through concatenation, fields and calls. Each behaviour of the machine (branches on choice() are "
          "explored) yields its definition events; an event is covered by a regular state with the same value, by a state of the object's allocation site "
          "whose fields and elements cover the snapshot recursively, or by an unknown state.",
-    note="Python frontend, one entry; allocation site = statement of the first state carrying a state id; a symbol's states are read with lian's own rule (newest copy "
+    note="Python and javascript value chains, one entry; allocation site = statement of the first state carrying a state id; a symbol's states are read with lian's own rule (newest copy "
          "of each state id leaving the statement); None is not judged; array elements position-insensitive. Four open findings (may-alias receiver, nested object via alias, "
          "callee alias after a join, loop-carried values) and two repaired defects of the constant folder are in known_findings.json.",
     design_ref="5/C08", engine="GIRMachine")
